@@ -3,12 +3,17 @@ from pyvc.api import *
 import worker as W
 
 PROP = 'C03'
-REPLAYERS = {'pool.Worker.workloop': 'replayers/workloop.py'}
+REPLAYERS = {'pool.Worker.workloop': 'replayers/workloop.py', 'pool.ApplyResult._ack': 'replayers/generic.py'}
 
 
 def build(w):
+    # the parent side of the protocol: what the ACK records (C01's contracts of ApplyResult._ack and on_ack)
+    import C01 as c01
+    parent = [c for c in c01.build(w) if c.qualname.endswith('ApplyResult._ack') or c.qualname.endswith('.on_ack')]
+    for c in parent:
+        c.prop = PROP
     W.declare_worker(w)
-    return [W.workloop_contract(PROP)]
+    return [W.workloop_contract(PROP)] + parent
 
 ASSUMPTIONS = [
     'the worker talks to the world only through wait_for_job / wait_for_syn / put / the task function; each is an assumed '
@@ -23,7 +28,8 @@ MANIFEST_ENTRY = {
             'function is called, the task is called exactly once and only for a job that was not refused, exactly one READY is '
             'put per executed job (the encoding-error record if the first put fails) before the next job is taken, a NACKed job '
             'is neither executed nor counted toward the quota, the quota is never exceeded, and nothing is sent or taken after '
-            'the termination signal (refuted on the pinned tree and replayed: defect D2, fixed).  The parent side (ApplyResult._ack '
-            'records owner and time before the accept callback; on_ack) is proved under C01.',
+            'the termination signal (refuted on the pinned tree and replayed: defect D2, fixed).  The parent side is proved with it: ApplyResult._ack '
+            'records owner and acceptance time before the accept callback runs (also for a job cancelled before its ACK is '
+            'handled), and on_ack attributes the ACK to the job named in it.',
     'note': 'Externals (queue receive/put, task code) are assumed contracts; message order per worker is assumed FIFO.',
 }
